@@ -70,6 +70,7 @@ pub fn main(args: &[String]) -> i32 {
     let threads: usize = o.num("threads", 3);
     let steps: usize = o.num("steps", 60);
     let live = Arc::new(AtomicUsize::new(0));
+    let flushpct_all: u32 = o.num("flushpct", 0);
 
     match kind.as_str() {
         "mixed" | "faulty" | "pinned" => {
@@ -107,6 +108,7 @@ pub fn main(args: &[String]) -> i32 {
                 let lv = live.clone();
                 let mut r = StdRng::seed_from_u64(seed * 977 + t as u64);
                 let faulty = kind == "faulty";
+                let flushpct: u32 = flushpct_all;
                 hs.push(std::thread::spawn(move || {
                     lv.fetch_add(1, Ordering::SeqCst);
                     for i in 0..steps {
@@ -120,6 +122,13 @@ pub fn main(args: &[String]) -> i32 {
                         }
                         let k = &ks[r.gen_range(0..ks.len())];
                         let c = r.gen_range(0..100);
+                        if flushpct > 0 && r.gen_range(0..100) < flushpct {
+                            // every thread flushes often: requests queue up behind passes that are already under way
+                            api("flush_begin", t as u64 + 1, 0);
+                            let res = st.flush();
+                            api("flush_end", res.is_ok() as u64, t as u64 + 1);
+                            continue;
+                        }
                         if c < 62 {
                             let n = *[40usize, 200, 900, 3000, 5000, 9000].get(r.gen_range(0..6)).unwrap();
                             let _ = st.insert(k, &vec![b'a' + (i % 26) as u8; n]);
@@ -127,7 +136,7 @@ pub fn main(args: &[String]) -> i32 {
                             let _ = st.delete(k);
                         } else if c < 90 {
                             let _ = st.get(k);
-                        } else if t == 0 || c < 94 {
+                        } else if t == 0 || c < 94 || faulty {
                             api("flush_begin", t as u64 + 1, 0);
                             let res = st.flush();
                             api("flush_end", res.is_ok() as u64, t as u64 + 1);
@@ -144,14 +153,26 @@ pub fn main(args: &[String]) -> i32 {
             }
             if kind == "faulty" {
                 // let the outage run out (every failed round counts), then heal for good
-                let t0 = Instant::now();
-                while crate::obs::batch_fails() < FAULT_ROUNDS.load(Ordering::SeqCst) && t0.elapsed().as_millis() < 4000 {
-                    crate::util::watchdog::beat("coord: outage running out");
-                    api("flush_begin", 9, 0);
-                    let res = store.flush();
-                    api("flush_end", res.is_ok() as u64, 9);
-                    std::thread::sleep(Duration::from_millis(30));
+                // several threads write FRESH keys and call flush() at the same time (their requests queue up behind one
+                // another on the workers' channels) until the outage has run out
+                let mut fs = Vec::new();
+                for t in 0..3usize {
+                    let st = store.clone();
+                    fs.push(std::thread::spawn(move || {
+                        let t0 = Instant::now();
+                        let mut n = 0usize;
+                        while crate::obs::batch_fails() < FAULT_ROUNDS.load(Ordering::SeqCst) && t0.elapsed().as_millis() < 4000 {
+                            crate::util::watchdog::beat("coord: outage running out");
+                            let _ = st.insert(format!("fresh{t}_{n:04}").as_bytes(), &[b'f'; 100]);
+                            n += 1;
+                            api("flush_begin", 9 + t as u64, 0);
+                            let res = st.flush();
+                            api("flush_end", res.is_ok() as u64, 9 + t as u64);
+                            if n % 4 == 0 { std::thread::sleep(Duration::from_millis(7)); }
+                        }
+                    }));
                 }
+                for h in fs { let _ = h.join(); }
                 FAULT_ROUNDS.store(0, Ordering::SeqCst);
                 api("fault_off", 0, 0);
             }
@@ -173,6 +194,23 @@ pub fn main(args: &[String]) -> i32 {
             }
             for h in hs {
                 let _ = h.join();
+            }
+        }
+        "stopgo" => {
+            // rounds of continuous small writes that stop at an arbitrary phase of the coordinator's period and of the
+            // workers' passes, each followed by a quiet period: whatever was accepted last reaches the device unasked
+            let rounds: usize = o.num("rounds", 6);
+            let mut n = 0usize;
+            for round in 0..rounds {
+                let dur = rng.gen_range(40..260u128);
+                let t0 = Instant::now();
+                while t0.elapsed().as_millis() < dur {
+                    let _ = store.insert(format!("sg{n:06}").as_bytes(), &[b's'; 40]);
+                    n += 1;
+                    if n % 64 == 0 { crate::util::watchdog::beat("coord: stopgo"); }
+                    if rng.gen_range(0..2) == 0 { std::thread::sleep(Duration::from_micros(rng.gen_range(50..500))); }
+                }
+                settle(10 + round as u64);
             }
         }
         "bigburst" => {
